@@ -173,7 +173,7 @@ def main(tier, seed):
     rng = random.Random(seed)
     names = list(LIB_OF)
     cases = []
-    for i in range(48 if q else 1500):
+    for i in range(48 if q else 8000):
         k = rng.choice([1, 2, 3, 4])
         cases.append({"seed": seed * 211 + i, "apps": rng.sample(names, k), "codes_per_app": rng.choice([1, 2, 4]),
                       "outcomes": OUTCOMES if rng.random() < 0.5 else rng.sample(OUTCOMES, 4)})
